@@ -113,7 +113,8 @@ type caseB struct {
 	SizeIdx int    `json:"size_idx"`
 	Range   string `json:"range"`
 	Head    bool   `json:"head"`
-	Dir     bool   `json:"dir,omitempty"` // the directory object dirobj/ (zero bytes) instead; size_idx only shaped the range
+	Dir     bool   `json:"dir,omitempty"`             // the directory object dirobj/ (zero bytes) instead; size_idx only shaped the range
+	AccEnc  string `json:"accept_encoding,omitempty"` // Accept-Encoding sent with the request (objects with odd index are text/plain, index%4==2 application/json)
 }
 
 var (
@@ -142,7 +143,14 @@ func setup() error {
 	for i, n := range sizes {
 		b := s3c.GenBytes(uint64(i)+77, int(n))
 		bodies = append(bodies, b)
-		if r := cl.MustCall("PUT", fmt.Sprintf("/rng/obj%d", i), nil, nil, b); !r.OK() {
+		var ct []s3c.KV
+		switch {
+		case i%2 == 1:
+			ct = []s3c.KV{{K: "Content-Type", V: "text/plain"}}
+		case i%4 == 2:
+			ct = []s3c.KV{{K: "Content-Type", V: "application/json"}}
+		}
+		if r := cl.MustCall("PUT", fmt.Sprintf("/rng/obj%d", i), nil, ct, b); !r.OK() {
 			return fmt.Errorf("put object: %v", r)
 		}
 	}
@@ -170,11 +178,18 @@ func runB(c caseB) error {
 	if c.Range != "" {
 		h = append(h, s3c.KV{K: "Range", V: c.Range})
 	}
+	if c.AccEnc != "" {
+		// what the client is willing to decode must not change which bytes the headers describe
+		h = append(h, s3c.KV{K: "Accept-Encoding", V: c.AccEnc})
+	}
 	r, err := cl.Call(method, path, nil, h, nil)
 	if err != nil {
 		return fmt.Errorf("transport: %w", err)
 	}
 	pfx := fmt.Sprintf("%s size=%d Range=%q: ", method, size, c.Range)
+	if c.AccEnc != "" {
+		pfx = fmt.Sprintf("%s size=%d Range=%q Accept-Encoding=%q: ", method, size, c.Range, c.AccEnc)
+	}
 	if c.Dir {
 		pfx = "directory object, " + pfx
 	}
@@ -186,6 +201,9 @@ func runB(c caseB) error {
 	}
 	cr := r.Header.Get("Content-Range")
 	clen := r.Header.Get("Content-Length")
+	if ce := r.Header.Get("Content-Encoding"); ce != "" {
+		return fmt.Errorf(pfx+"the answer carries Content-Encoding %q, the object was stored without one (status %d, Content-Range %q, Content-Length %q, %d body bytes)", ce, r.Status, cr, clen, len(r.Body))
+	}
 	var got model.RangeOutcome
 	switch r.Status {
 	case 200:
@@ -241,7 +259,8 @@ func TestC13B(t *testing.T) {
 	}
 	ev.Check(t, "C13B", func(t *rapid.T) {
 		idx := rapid.IntRange(0, len(sizes)-1).Draw(t, "size_idx")
-		c := caseB{SizeIdx: idx, Range: rangeGen(sizes[idx]).Draw(t, "range"), Head: rapid.IntRange(0, 9).Draw(t, "head") == 0, Dir: rapid.IntRange(0, 11).Draw(t, "dir") == 0}
+		c := caseB{SizeIdx: idx, Range: rangeGen(sizes[idx]).Draw(t, "range"), Head: rapid.IntRange(0, 9).Draw(t, "head") == 0, Dir: rapid.IntRange(0, 11).Draw(t, "dir") == 0,
+			AccEnc: rapid.SampledFrom([]string{"", "", "", "gzip", "gzip, deflate, br", "identity", "deflate", "br", "*"}).Draw(t, "accept_encoding")}
 		if strings.ContainsAny(c.Range, "\r\n\x00") {
 			c.Range = "bytes=0-0"
 		}
@@ -254,7 +273,7 @@ func TestC13B(t *testing.T) {
 		if c.Dir {
 			m += ":dirobj"
 		}
-		ev.Case(fmt.Sprintf("B|%d|%s|%v|%v", idx, c.Range, c.Head, c.Dir), c.Range != "" && sizes[idx] > 0, "B:"+m+":"+cls)
+		ev.Case(fmt.Sprintf("B|%d|%s|%v|%v|%s", idx, c.Range, c.Head, c.Dir, c.AccEnc), c.Range != "" && sizes[idx] > 0, "B:"+m+":"+cls)
 		ev.Sample("B:"+cls, 1, c)
 		if err := runB(c); err != nil {
 			if strings.HasPrefix(err.Error(), "SETUP") {
